@@ -152,6 +152,32 @@ impl FaultScen {
                 }
             }
         }
+        // "reported once ... no event is fabricated from partial data": whatever the caller
+        // gets when it reads on after the error is either nothing more (Eof / errors) or —
+        // for an implementation that can resume — exactly the fault-free continuation;
+        // an event assembled from the leftover of the interrupted markup is neither
+        let rest = &got.steps[(j + 1).min(got.steps.len())..];
+        let quiet = rest.iter().all(|s| s.out.is_eof() || s.out.is_err());
+        if !quiet {
+            let cont = &base.steps[j.min(base.steps.len())..];
+            let resumed = rest.len() <= cont.len() && rest.iter().zip(cont.iter()).all(|(a, b)| a.out == b.out);
+            if !resumed {
+                let bad = rest.iter().find(|s| !(s.out.is_eof() || s.out.is_err())).unwrap();
+                let mut v = Violation::new(
+                    "C18",
+                    "event-fabricated-after-error",
+                    format!(
+                        "after the injected {} was reported at step {}, a later call returned [{}], which is neither Eof/an error nor the fault-free continuation [{}]",
+                        kind,
+                        j,
+                        bad.out.short(),
+                        cont.first().map(|s| s.out.short()).unwrap_or_default()
+                    ),
+                );
+                derived(&mut v);
+                out.push(v);
+            }
+        }
     }
 }
 
